@@ -74,6 +74,7 @@ package types
 //@   ensures result1 == nil ==> result0 != nil && !result0.closed
 //@   ensures result1 == nil ==> result0.size <= 0xffffffff
 //@   ghostset g_open = ite(result1 == nil, g_open + 1, g_open)
+//@   ghostset g_vfs_open_err = result1
 
 //@ interface VFS.Delete
 //@   ensures true
